@@ -1,14 +1,16 @@
 """C04 - snapshot ids are the inhabited instants; per-snapshot counts are exact."""
 from sa.core import Repo, Report, CLASSES
 from sa.ownership import check_purity, container_types
-from sa.readers import check_snapshot_readers
+from sa.readers_interp import check_index_readers, check_avg_number_of_nodes
 from . import common
 
 EXPLANATION = ("static analysis: on every accepting path of add_interaction (all order types) the snapshot counters "
                "must rise by the divisor that interactions_per_snapshots applies, exactly on the instants of the span "
                "that were not yet present (so keys = inhabited instants and value/divisor = number of interactions); "
-               "the readers are interpreted abstractly (sorted keys; 0 and no key creation for an uninhabited "
-               "instant); avg_number_of_nodes is matched structurally; observers are shown pure by the taint analysis")
+               "the readers are interpreted on a concrete-symbolic index whose ids were created out of order (ascending "
+               "ids; counter/divisor; 0 and no key creation for an uninhabited instant; map form); avg_number_of_nodes "
+               "is interpreted on a 4-node symbolic graph with five snapshot ids over all 64 presence valuations and "
+               "must equal the mean of |V_t|; observers are shown pure by the taint analysis")
 
 
 def run(repo: Repo, tier, rep: Report):
@@ -23,22 +25,21 @@ def run(repo: Repo, tier, rep: Report):
         common.take(rep, mc, "O.add_interaction", lambda f: not common.is_accumulative(f) and (
             f["clause"].startswith("C04.") or f["clause"] == "C01.exception"))
 
-    def add(rule, construct, key, msg, line=0):
-        rep.finding("R.readers/" + rule, construct, key, msg, line=line)
-    n = 0
-    for cls in CLASSES:
-        k = container_types(repo, cls)
-        kinds = {a: (sorted(b)[0] if b else "dict") for a, b in k.items()}
-        n += check_snapshot_readers(repo, cls, add, kinds)
-    rep.ob("R.readers", "temporal_snapshots_ids / interactions_per_snapshots / avg_number_of_nodes x2",
-           "%d reader instances interpreted" % n)
-    rep.floor("reader instances", n, 8)
-
     def addp(rule, construct, key, msg, line=0):
         rep.finding(rule, construct, key, msg, line=line)
     nq = check_purity(repo, addp, only={"temporal_snapshots_ids", "interactions_per_snapshots", "avg_number_of_nodes",
                                         "number_of_nodes", "degree", "degree_iter"})
     rep.ob("W2.pure-query", "snapshot observers", "%d observers write nothing through self" % nq)
     rep.floor("observers checked for purity", nq, 8)
+    def add(rule, construct, key, msg, line=0):
+        rep.finding("R.readers/" + rule, construct, key, msg, line=line)
+    n = 0
+    for cls in CLASSES:
+        k = container_types(repo, cls)
+        kinds = {a: (sorted(b)[0] if b else "dict") for a, b in k.items()}
+        n += check_index_readers(repo, rep, cls, kinds["snapshots"], mcs[cls].div or 2)
+        n += check_avg_number_of_nodes(repo, rep, cls)
+    rep.floor("reader runs", n, 100)
+
     rep.assume(*common.MERGE_ASSUMPTIONS)
     rep.assume("number_of_nodes(t) itself is decided under C02")
